@@ -20,16 +20,16 @@ AStim(row) == Stim(row) /\ H([op |-> "stim", row |-> row])
 AIntegrate == Integrate /\ UNCHANGED hist
 Next ==
   \/ \E pre \in PreSites, post \in PostSites, ty \in Types : AConnect(pre, post, ty)
-  \/ \E x \in {0, 2}, ev \in EdgeViews : ASetW(x, ev)
-  \/ \E ev \in EdgeViews : ASetS(3, ev)
+  \/ \E x \in {0, 2}, ev \in EdgeViews \cup RowViews : ASetW(x, ev)
+  \/ \E ev \in EdgeViews \cup RowViews : ASetS(3, ev)
   \/ \E what \in {"s", "i"}, ev \in EdgeViews : ARecordE(what, ev)
   \/ \E ev \in EdgeViews : AClampE(ev)
   \/ \E row \in {1, 5} : AStim(row)
   \/ AIntegrate
 NetInit == Init /\ hist = <<>>
 OpCode(h) == CASE h.op = "connect" -> 1 + h.pre * 7 + h.post * 3 + (IF h.ty = "P" THEN 0 ELSE 1)
-               [] h.op = "setw" -> 41 + h.x * 5 + h.ev.k + (IF h.ev.kind = "type" THEN 0 ELSE 2) + (IF h.ev.ty = "P" THEN 0 ELSE 11)
-               [] h.op = "sets" -> 73 + h.ev.k + (IF h.ev.kind = "type" THEN 0 ELSE 2) + (IF h.ev.ty = "P" THEN 0 ELSE 11)
+               [] h.op = "setw" -> 41 + h.x * 5 + h.ev.k + (IF h.ev.kind = "type" THEN 0 ELSE IF h.ev.kind = "rows" THEN 23 ELSE 2) + (IF h.ev.ty = "P" THEN 0 ELSE 11)
+               [] h.op = "sets" -> 73 + h.ev.k + (IF h.ev.kind = "type" THEN 0 ELSE IF h.ev.kind = "rows" THEN 19 ELSE 2) + (IF h.ev.ty = "P" THEN 0 ELSE 11)
                [] h.op = "record" -> 101 + (IF h.what = "s" THEN 0 ELSE 17) + h.ev.k + (IF h.ev.kind = "type" THEN 0 ELSE 2) + (IF h.ev.ty = "P" THEN 0 ELSE 11)
                [] h.op = "clamp" -> 151 + h.ev.k + (IF h.ev.kind = "type" THEN 0 ELSE 2) + (IF h.ev.ty = "P" THEN 0 ELSE 11)
                [] h.op = "stim" -> 181 + h.row
@@ -39,5 +39,5 @@ Hash == HashSeq(hist, 17) % SAMPLE
 Emit == (obs # <<>> /\ Hash = SEEDK % SAMPLE) =>
           PrintT(<<"NETSTATE", ToJson([hist |-> hist, edges |-> edges, w |-> w, s0 |-> s0, recs |-> recs, stim |-> stim, ecl |-> ecl, obs |-> obs])>>)
 Spec == NetInit /\ [][Next]_<<nvars, hist>>
-ASSUME PrintT(<<"MODEL", ToJson([nrows |-> NRows, K |-> K, T |-> T])>>)
+ASSUME PrintT(<<"MODEL", ToJson([nrows |-> NRows, K |-> K, T |-> T, rowsets |-> [i \in 1..Len(RowSets) |-> SeqOfSet(RowSets[i])]])>>)
 =============================================================================
